@@ -198,6 +198,7 @@ func (bf *Filter) add(data []byte) {
 	if bf.msgFilterLoad == nil || len(bf.msgFilterLoad.Filter) == 0 {
 		return
 	}
+	verifOnAdd(bf, data)
 
 	// Adding data to a bloom filter consists of setting all of the bit
 	// offsets which result from hashing the data using each independent
